@@ -25,6 +25,29 @@ type DiffCase struct {
 	// adjacent windows L|R of one buffer.  1 and 2 fall back to 0 when neither
 	// input is a prefix / suffix of the other.
 	Lay int `json:"lay,omitempty"`
+	// Share makes lines share string storage the way text processing does
+	// (rhs[i] = strings.TrimRight(lhs[i], " ")): every line that is a proper
+	// prefix of another line of the two inputs becomes a re-slice of that
+	// longer line, so the two strings start at the same address.
+	Share bool `json:"share,omitempty"`
+}
+
+// shareStorage re-slices prefixes out of the longer lines (see DiffCase.Share).
+func shareStorage(ls ...[]string) {
+	var all []string
+	for _, l := range ls {
+		all = append(all, l...)
+	}
+	for _, l := range ls {
+		for i, s := range l {
+			for _, m := range all {
+				if len(m) > len(s) && len(s) > 0 && strings.HasPrefix(m, s) {
+					l[i] = m[:len(s)]
+					break
+				}
+			}
+		}
+	}
 }
 
 func (c DiffCase) String() string {
@@ -239,6 +262,10 @@ func runC13(c DiffCase, o *vk.Obs) string {
 	}
 	if c.R == nil {
 		R = nil
+	}
+	if c.Share {
+		shareStorage(L, R)
+		o.Class("lines_share_string_storage")
 	}
 	shared := false
 	switch c.Lay {
